@@ -847,6 +847,9 @@ def transform(node, *callbacks):
                     and isinstance(node, ParsedObject)
                     and not node._metadata
                 ):
+                    # Give the position to a copy: the replacement may be part
+                    # of the input tree, which we must not modify.
+                    node = node._replace()
                     node._metadata.update(prev._metadata)
 
         return node
